@@ -32,6 +32,11 @@ pub struct Eval {
     pub tags: Vec<&'static str>,
 }
 
+thread_local! {
+    /// source location of the last panic on this thread (set by the hook installed in main)
+    pub static LAST_PANIC_LOC: std::cell::RefCell<String> = const { std::cell::RefCell::new(String::new()) };
+}
+
 pub trait Space: Sync {
     fn name(&self) -> String;
     fn size(&self) -> u64;
@@ -92,7 +97,22 @@ pub fn run_space(sp: &dyn Space) -> SpaceResult {
     let l = (0..n)
         .into_par_iter()
         .fold(Local::default, |mut acc, idx| {
-            let e = sp.eval(idx);
+            // a panic of the library on a case of the property's domain means the promised result was not
+            // delivered: it is reported as a violation of this property (C01 reports it as well, with attribution)
+            let e = match std::panic::catch_unwind(std::panic::AssertUnwindSafe(|| sp.eval(idx))) {
+                Ok(e) => e,
+                Err(p) => {
+                    let msg = p.downcast_ref::<String>().cloned().or_else(|| p.downcast_ref::<&str>().map(|s| s.to_string())).unwrap_or_else(|| "panic".into());
+                    let loc = LAST_PANIC_LOC.with(|l| l.borrow().clone());
+                    if loc.starts_with("src/") || loc.is_empty() {
+                        // raised by the harness itself (generator / reference-domain assertion / bug): never a verdict
+                        eprintln!("MACHINERY: {}[{}] panicked inside the harness at {}: {}", sp.name(), idx, loc, msg);
+                        std::process::exit(2);
+                    }
+                    let short: String = msg.chars().map(|c| if c.is_ascii_digit() { '#' } else { c }).take(80).collect();
+                    Eval { key: 0, transitions: 0, issues: vec![issue(format!("library-panicked/{}", short.replace(' ', "-")), format!("panic at {} while evaluating this case: {}", loc, msg))], tags: vec![] }
+                }
+            };
             acc.evaluations += 1;
             acc.transitions += e.transitions;
             if e.key != 0 {
